@@ -696,10 +696,10 @@ class SX:
             return res
         if isinstance(s, ast.While) and self.eval_comprehensions:
             return self.while_concrete(s, st, frame)
-        if isinstance(s, ast.Match) and self.eval_comprehensions:
+        if isinstance(s, ast.Match):
             return self.match_stmt(s, st, frame)
-        if isinstance(s, ast.For) and (self.eval_comprehensions or isinstance(s.iter, (ast.Tuple, ast.List))):
-            r = self.for_unrolled(s, st, frame)       # a loop over a literal tuple/list is always unrolled
+        if isinstance(s, ast.For) and (self.eval_comprehensions or isinstance(s.iter, (ast.Tuple, ast.List, ast.Name))):
+            r = self.for_unrolled(s, st, frame)       # a loop over a concrete tuple/list (literal, local or module constant) is unrolled
             if r is not None:
                 return r
         if isinstance(s, ast.For):
@@ -1260,7 +1260,11 @@ class SX:
         if s.orelse:
             return None
         outs = []
-        for r in self.eval_x(s.iter, st, frame):
+        try:
+            its = self.eval_x(s.iter, st, frame)
+        except CannotDecide:
+            return None
+        for r in its:
             if isinstance(r, Outcome):
                 outs.append(r)
                 continue
@@ -1319,6 +1323,29 @@ class SX:
             subj = r[1]
             for case in s.cases:
                 nxt = []
+                # `case C():` / `case C() | D():` on a named subject is isinstance(subject, (C, D)): decided like an if-test
+                classes = self._class_patterns(case.pattern)
+                if classes is not None and isinstance(s.subject, ast.Name):
+                    test = ast.copy_location(ast.Call(func=ast.Name('isinstance', ast.Load()),
+                                                      args=[s.subject, classes[0] if len(classes) == 1 else ast.Tuple(elts=classes, ctx=ast.Load())],
+                                                      keywords=[]), case.pattern)
+                    ast.fix_missing_locations(test)
+                    for sc in pending:
+                        tr, fa, rs = self.branch(test, sc, frame)
+                        res.extend(rs)
+                        nxt.extend(fa)
+                        if case.guard is not None:
+                            tr2 = []
+                            for t_ in tr:
+                                a, b, rs2 = self.branch(case.guard, t_, frame)
+                                res.extend(rs2)
+                                tr2 += a
+                                nxt.extend(b)
+                            tr = tr2
+                        if tr:
+                            res.extend(self.block(case.body, tr, frame))
+                    pending = nxt
+                    continue
                 for sc in pending:
                     m = self.pattern(case.pattern, subj, sc)
                     if m is None:
@@ -1335,6 +1362,21 @@ class SX:
                 pending = nxt
             res.extend(Outcome(sc, 'fall') for sc in pending)
         return res
+
+    @staticmethod
+    def _class_patterns(p):
+        """[class expression nodes] when the pattern is `C()` or an or-pattern of such (no sub-patterns), else None"""
+        if isinstance(p, ast.MatchClass) and not p.patterns and not p.kwd_patterns:
+            return [p.cls]
+        if isinstance(p, ast.MatchOr):
+            out = []
+            for q in p.patterns:
+                c = SX._class_patterns(q)
+                if c is None:
+                    return None
+                out += c
+            return out
+        return None
 
     def pattern(self, p, v, st):
         """state with the captures bound if the pattern statically matches, None if it statically does not"""
@@ -1436,6 +1478,18 @@ class SX:
                 return Q(kind, v * self.tables.factor(kind, unit.value), U(lit=unit.value))
         if isinstance(node, ast.Constant):
             return self.const_value(node)
+        if isinstance(node, (ast.Tuple, ast.List)):
+            # a module-level table: tuple/list of constants, names of other module constants, nested tuples
+            items = []
+            for e in node.elts:
+                if isinstance(e, ast.Name):
+                    m2, c2 = self.model.resolve_const(mod, e.id)
+                    if c2 is None:
+                        return Dyn(Rat.atom(ident))
+                    items.append(self.module_const(m2, e.id, c2))
+                else:
+                    items.append(self.module_const(mod, f'{ident}[{len(items)}]', e))
+            return Tv(items, 'tuple' if isinstance(node, ast.Tuple) else 'list')
         try:
             return N(const_fold(node))
         except AnalysisError:
@@ -2104,6 +2158,11 @@ class SX:
 
     def apply_name(self, n, name, args, kwargs, st, frame) -> list:
         m = self.model
+        if name == 'getattr' and len(args) in (2, 3) and isinstance(args[1], Sv) and isinstance(args[0], (Ov, Q)):
+            return self.load_attr(args[0], args[1].s, st, frame, n)
+        if name == 'setattr' and len(args) == 3 and isinstance(args[1], Sv) and isinstance(args[0], Ov):
+            outs = self.store_attr(args[0], args[1].s, args[2], st, frame, n.lineno)
+            return [(o.state, NoneV()) if o.kind == 'fall' else o for o in outs]
         if name in ('isinstance', 'issubclass', 'hasattr'):
             return [(st, self.class_test(n, name, args, st, frame))]
         if m.is_quantity(name):
@@ -2237,6 +2296,11 @@ class SX:
             return [(st.with_effect(('new', name, args, kwargs, n.lineno)), Ov(f'new:{name}@{n.lineno}', name, True))]
         # local callable value?
         fv = st.env.get(name)
+        if isinstance(fv, Ov) and '.' in fv.path and not fv.path.startswith('new:'):
+            # a local alias of an attribute (`compare = self.operator`): the call is the call of that attribute
+            owner, attr = fv.path.rsplit('.', 1)
+            sargs = [self.show(a) for a in args] + [f'{k}={self.show(v)}' for k, v in sorted(kwargs.items())]
+            return [(st.with_effect(('call', owner, attr, args, kwargs, n.lineno)), Unk(f'{fv.path}({", ".join(sargs)})'))]
         label = fv.name if isinstance(fv, Fv) else name
         sargs = [self.show(a) for a in args] + [f'{k}={self.show(v)}' for k, v in sorted(kwargs.items())]
         if all(isinstance(a, (N, Dyn, Q)) for a in list(args) + list(kwargs.values())) and (args or kwargs):
